@@ -16,7 +16,10 @@ RULE = (
     "bookmark start/end, reference mark (point and range), frame name (get_frame), image name, draw page name "
     "(get_draw_page), variable declaration, variable set, user field declaration, user defined field, note id "
     "(get_note), annotation name, link name, draw group name, text change id, manifest path (add_full_path / "
-    "get_media_type / get_path_medias), get_between/get_references by name. One evaluation = one (carrier, "
+    "get_media_type / get_path_medias), get_between/get_references by name, named ranges by name and by the "
+    "name of their table (tables whose names contain one another; str and list filter; rename of the longest). "
+    "Each found object is then given another identifier through its public setter (the former identifier must "
+    "no longer match it, the new one must) and deleted (no longer found). One evaluation = one (carrier, "
     "identifier) case judged: lookup(id) returns the marked node whose identifier attribute equals id exactly; "
     "lookup(near-miss absent) returns None; no XPathSyntaxError/XPathEvalError/XMLSyntaxError. Class = "
     "(carrier, character classes present in the identifier, outcome)."
@@ -248,6 +251,106 @@ def run_carrier(res, cname, spec, ident):
         outcome = "raised"
         res.violation(f"lookup:{cname}:raised:{type(e).__name__}", {"ident": ident_l, "exc": repr(e)[:200]}, case)
     res.cls((cname, charclasses(ident), outcome), True)
+    if outcome != "found":
+        return
+    # second phase: the object found is given another identifier, then removed; a lookup under the
+    # former identifier must no longer match it (an object with a different identifier), the new one must
+    res.judge()
+    outcome2 = "renamed-and-deleted"
+    try:
+        target = found
+        try:
+            target.name = absent  # public setter where the class has one (styles, tables, marks, frames ...)
+            if node(target).get(attr) != absent:
+                raise AttributeError
+        except (AttributeError, TypeError, ValueError):
+            node(target).set(attr, absent)
+        new_ident = node(target).get(attr)
+        stale = lookup(c, ident_l)
+        if stale is not None:
+            outcome2 = "old-name-still-matches"
+            res.violation(f"lookup:{cname}:old-identifier-still-matches-after-rename", {"ident": ident_l, "renamed_to": new_ident, "got": node(stale).get(attr), "mark": node(stale).get(MARK)}, case)
+        again = lookup(c, new_ident)
+        ok, why = verdict(again, new_ident, attr)
+        if not ok:
+            outcome2 = "not-found-after-rename"
+            res.violation(f"lookup:{cname}:not-found-under-the-new-identifier:{why.split('(')[0]}", {"ident": ident_l, "renamed_to": new_ident, "why": why}, case)
+        if again is not None and node(again).getparent() is not None:
+            again.delete()
+            gone = lookup(c, new_ident)
+            if gone is not None and node(gone).get(MARK) == "target":
+                outcome2 = "found-after-delete"
+                res.violation(f"lookup:{cname}:deleted-object-still-found", {"ident": new_ident}, case)
+    except (XMLSyntaxError, XPathError) as e:
+        outcome2 = "query-error"
+        res.violation(f"lookup:{cname}:internal-query-error-after-rename:{type(e).__name__}", {"ident": ident_l, "exc": repr(e)[:200]}, case)
+    except Exception as e:
+        outcome2 = "raised"
+        res.violation(f"lookup:{cname}:raised-after-rename:{type(e).__name__}", {"ident": ident_l, "exc": repr(e)[:300]}, case)
+    res.cls((cname, charclasses(ident), outcome2), True)
+
+
+def run_named_ranges(res, ident):
+    """Named ranges looked up by name and by the name of their table: tables whose names contain one another."""
+    from lxml.etree import XMLSyntaxError, XPathError
+
+    from odfdo import Document, Table
+
+    case = {"carrier": "named-range", "ident": ident}
+    res.judge()
+    outcome = "ok"
+    try:
+        doc = Document("spreadsheet")
+        body = doc.body
+        body.clear()
+        try:
+            names = [ident] + [d for d in near_misses(ident)[:3]]
+            tables = []
+            for i, nm in enumerate(names):
+                t = Table(nm, 3, 3)
+                t.set_value((0, 0), f"v{i}")
+                body.append(t)
+                tables.append(t)
+        except (ValueError, TypeError):
+            res.count("not_accepted")
+            res.cls(("named-range", charclasses(ident), "refused"), True)
+            return
+        stored = [t.name for t in tables]
+        if len(set(stored)) != len(stored):
+            res.cls(("named-range", charclasses(ident), "names-collide"), True)
+            return
+        for i, t in enumerate(tables):
+            t.set_named_range(f"vf_nr_{i}", "A1", table_name=t.name)
+        for i, t in enumerate(tables):
+            # by table name, given as a string and as a list
+            for form, arg in (("str", stored[i]), ("list", [stored[i]])):
+                got = sorted(nr.name for nr in tables[0].get_named_ranges(table_name=arg))
+                if got != [f"vf_nr_{i}"]:
+                    outcome = "wrong-ranges"
+                    res.violation(f"lookup:named-ranges-by-table-name({form}):wrong-set", {"table": stored[i], "tables": stored, "got": got, "expected": [f"vf_nr_{i}"]}, case)
+            nr = body.get_named_range(f"vf_nr_{i}")
+            if nr is None or nr.table_name != stored[i]:
+                outcome = "wrong-table-name"
+                res.violation("lookup:named-range:table-name-read-back-differs", {"table": stored[i], "got": None if nr is None else nr.table_name}, case)
+            elif nr.get_value() != f"v{i}":
+                outcome = "wrong-table"
+                res.violation("lookup:named-range:reads-another-table", {"table": stored[i], "got": nr.get_value(), "expected": f"v{i}"}, case)
+        # renaming the table with the longest name must re-target its own range only
+        k = max(range(len(stored)), key=lambda j: len(stored[j]))
+        tables[k].name = "Renamed"
+        for i in range(len(tables)):
+            exp = "Renamed" if i == k else stored[i]
+            nr = body.get_named_range(f"vf_nr_{i}")
+            if nr is None or nr.table_name != exp:
+                outcome = "retarget"
+                res.violation("lookup:named-range:wrong-range-retargeted-by-a-table-rename", {"renamed": stored[k], "range_of": stored[i], "now_points_to": None if nr is None else nr.table_name}, case)
+    except (XMLSyntaxError, XPathError) as e:
+        outcome = "query-error"
+        res.violation(f"lookup:named-range:internal-error:{type(e).__name__}", {"ident": ident, "exc": repr(e)[:200]}, case)
+    except Exception as e:
+        outcome = "raised"
+        res.violation(f"lookup:named-range:raised:{type(e).__name__}", {"ident": ident, "exc": repr(e)[:300]}, case)
+    res.cls(("named-range", charclasses(ident), outcome), True)
 
 
 def run_manifest(res, ident):
@@ -373,6 +476,7 @@ def run(ctx, res):
         if ctx.mine(i):
             run_manifest(res, ident)
             run_between(res, ident)
+            run_named_ranges(res, ident)
     res.info["identifiers_exhaustive"] = "all strings up to length 3 over the 9-letter alphabet on every carrier"
     res.sample({"carrier": "bookmark", "ident": 'a"]|//*[@x="', "decoys": near_misses('a"]|//*[@x="')})
     res.sample({"carrier": "table", "ident": "é '"})
@@ -386,6 +490,8 @@ def replay(case):
         run_manifest(res, case["ident"])
     elif case["carrier"] == "get_between":
         run_between(res, case["ident"])
+    elif case["carrier"] == "named-range":
+        run_named_ranges(res, case["ident"])
     else:
         run_carrier(res, case["carrier"], carriers()[case["carrier"]], case["ident"])
     return res.violations
